@@ -44,11 +44,18 @@ SigLen(s) == IF s = "bls" THEN 96 ELSE 64
 Default == <<100, 101, 102, 97, 117, 108, 116>>        \* "default"
 Entrypoints == {<<>>, Default, <<97>>, Fill(31, 101)}  \* none, "default", "a", 31 x "e"
 
+\* payloads that happen to be well-formed PACKed Micheline (05 <expr>): a chain id / signature stays what its length says
+PackLookalikes == {<<"chain", "net", <<5, 0, 129, 1>>>>,                                 \* = PACK of the int 65
+                   <<"sig", "gen", <<5, 10, 0, 0, 0, 58>> \o Fill(58, 119)>>,            \* = PACK of 58 bytes
+                   <<"sig", "bls", <<5, 10, 0, 0, 0, 90>> \o Fill(90, 119)>>,            \* = PACK of 90 bytes
+                   <<"sig", "ed", <<5, 1, 0, 0, 0, 58>> \o Fill(58, 101)>>}              \* = PACK of a 58-character string
 Atoms == {<<"addr", kd, p, ep>> : kd \in AddrKinds, p \in Payloads(20), ep \in Entrypoints}
          \cup {<<"kh", kd, p>> : kd \in ImplicitKinds, p \in Payloads(20)}
          \cup UNION {{<<"key", c, p>> : p \in Payloads(KeyLen(c))} : c \in Curves}
          \cup UNION {{<<"sig", s, p>> : p \in Payloads(SigLen(s))} : s \in SigKinds}
          \cup {<<"chain", "net", p>> : p \in Payloads(4)}
+         \cup PackLookalikes
+
 
 TypeOf(x) == CASE x[1] = "addr" -> "address" [] x[1] = "kh" -> "key_hash" [] x[1] = "key" -> "key"
                [] x[1] = "sig" -> "signature" [] x[1] = "chain" -> "chain_id"
